@@ -21,13 +21,26 @@ pub enum Ev {
     Eof,
 }
 
-pub const HARD_KINDS: [ErrorKind; 6] = [
+pub const HARD_KINDS: [ErrorKind; 19] = [
     ErrorKind::Other,
     ErrorKind::UnexpectedEof,
     ErrorKind::PermissionDenied,
     ErrorKind::BrokenPipe,
     ErrorKind::TimedOut,
     ErrorKind::InvalidData,
+    ErrorKind::WouldBlock,
+    ErrorKind::NotFound,
+    ErrorKind::ConnectionRefused,
+    ErrorKind::ConnectionReset,
+    ErrorKind::ConnectionAborted,
+    ErrorKind::NotConnected,
+    ErrorKind::AddrInUse,
+    ErrorKind::AddrNotAvailable,
+    ErrorKind::AlreadyExists,
+    ErrorKind::InvalidInput,
+    ErrorKind::WriteZero,
+    ErrorKind::Unsupported,
+    ErrorKind::OutOfMemory,
 ];
 
 pub fn script_to_json(s: &[Ev]) -> Json {
@@ -181,6 +194,7 @@ pub fn stream_check<V: Variant>(data: &[u8], script: &[Ev], rep: &mut Report) {
     match reader.first_hard {
         Some(kind) => {
             rep.count("stream:hard_error", 1);
+            rep.seen("hard-error-kinds", &format!("{:?}", kind));
             match &got {
                 Err(GeneratorOrIOError::IOError(e)) if e.kind() == kind => {}
                 other => rep.violation(
@@ -259,7 +273,7 @@ pub fn gen_script(rng: &mut Rng, total: usize) -> Vec<Ev> {
             14..=17 => Ev::Interrupted,
             18 => {
                 if style >= 4 {
-                    Ev::Hard(rng.below(6) as u8)
+                    Ev::Hard(rng.below(HARD_KINDS.len() as u64) as u8)
                 } else {
                     Ev::Interrupted
                 }
@@ -291,7 +305,7 @@ pub fn gen_script(rng: &mut Rng, total: usize) -> Vec<Ev> {
 }
 
 pub fn run_stream(ctx: &Ctx, rep: &mut Report) {
-    rep.rule = "scripted readers over {deliver k bytes (1..5, random, fill), Interrupted, hard error of 6 kinds, early EOF} on seeded data (0..64 KiB mostly; 1 MiB-1, 1 MiB, 1 MiB+1, 2.5 MiB in every run) for all five variants: without a hard error the result must equal hash_buf of the delivered bytes (as Ok or as the same generator error), with one it must be Err(IOError(kind)); files of sizes 0, 10, 1 MiB-1, 1 MiB, 1 MiB+1, 3 MiB and a missing path; non-trivial = more than one read or an injected event; distinct by fingerprint of (data, script)".into();
+    rep.rule = "scripted readers over {deliver k bytes (1..5, random, fill), Interrupted, hard error of 19 kinds (every stable std::io::ErrorKind other than Interrupted), early EOF} on seeded data (0..64 KiB mostly; 1 MiB-1, 1 MiB, 1 MiB+1, 2.5 MiB in every run) for all five variants: without a hard error the result must equal hash_buf of the delivered bytes (as Ok or as the same generator error), with one it must be Err(IOError(kind)); files of sizes 0, 10, 1 MiB-1, 1 MiB, 1 MiB+1, 3 MiB and a missing path; non-trivial = more than one read or an injected event; distinct by fingerprint of (data, script)".into();
     let n = ctx.n(12_000, 500_000);
     for i in 0..n {
         let mut rng = ctx.rng("c12", i);
@@ -341,6 +355,7 @@ pub fn run_stream(ctx: &Ctx, rep: &mut Report) {
         rep.floor("stream:multi_read", 100);
         rep.floor("stream:with_interruptions", 100);
         rep.floor("stream:hard_error", 20);
+        rep.set_floor("hard-error-kinds", HARD_KINDS.len() as u64);
         rep.floor("stream:ok", 100);
         rep.floor("stream:TooSmallInput", 1);
         rep.floor("stream:larger_than_buffer", 1);
